@@ -134,6 +134,10 @@ class Int(numerical.Numerical):
             return int(self._sample_numerical_value(prob, self.max_value + 1))
         return int(self._sample_with_step(prob))
 
+    @property
+    def values(self):
+        return tuple(int(value) for value in super().values)
+
     def value_to_prob(self, value):
         if self.step is None:
             return self._numerical_to_prob(
